@@ -463,22 +463,24 @@ class OpPoint(Part):
             ss.j_update(models=ss.exist.pflow_tds)
             fx, fy, gx, gy = (matrix_to_np(M) for M in (dae.fx, dae.fy, dae.gx, dae.gy))
             T = np.array(dae.Tf, dtype=float)
-            if np.linalg.cond(gy) > 1e13:
-                out.obs = dict(skip='algebraic block singular at the point reached')
+            # same reference and preconditions as part real: eigenvalues of the harness's own Schur reduction (the finite-eigenvalue
+            # filter of the QZ pencil is unreliable on badly scaled real networks), one mode per state with a non-zero time constant
+            z = np.flatnonzero(T == 0)
+            try:
+                A0 = fx - fy @ np.linalg.solve(gy, gx)
+                czz = np.linalg.cond(A0[np.ix_(z, z)]) if len(z) else 1.0
+            except np.linalg.LinAlgError:
+                czz = np.inf
+            if not np.isfinite(czz) or czz > 1e10 or np.linalg.cond(gy) > 1e14:
+                out.obs = dict(skip='an elimination is numerically singular at the point reached')
                 return out
-            ref = ref_pencil(fx, fy, gx, gy, T)
-            ref = ref[np.isfinite(ref)]
-            if len(ref) != len(mu):
-                out.bad('mode_count_wrong:oppoint', f'{len(mu)} modes reported, the pencil at the point reached has {len(ref)} finite ones')
+            n_dyn = int(np.sum(T != 0))
+            if len(mu) != n_dyn:
+                out.bad('mode_count_wrong:oppoint', f'{len(mu)} modes reported, {n_dyn} states have a non-zero time constant')
             else:
-                # greedy one-to-one matching, distances relative to the magnitude
-                rest = list(ref)
-                worst = 0.0
-                for m in sorted(mu, key=lambda z: -abs(z)):
-                    j = int(np.argmin([abs(m - r) for r in rest]))
-                    worst = max(worst, abs(m - rest[j]) / max(1.0, abs(m)))
-                    rest.pop(j)
-                if worst > 1e-3:
+                ref = np.linalg.eigvals(ref_state_matrix(fx, fy, gx, gy, T)[0])
+                worst = float(match(mu, ref))
+                if worst > 2e-3:
                     out.bad('modes_not_of_the_current_operating_point', f'after TDS.run to t = {float(dae.t)!r} (honest = {case["honest"]}): '
                             f'reported eigenvalues differ from those of the Jacobians refreshed at this point by {worst:.3e} (relative)')
                 out.obs = dict(t=float(dae.t), n=len(mu), worst=float(f'{worst:.2e}'))
